@@ -538,3 +538,274 @@ def cnf_with_unproductive(rng):
     if rng.random() < 0.6:
         G['R'].append([G['S'], k + 2, [['v', U], ['v', rng.choice(body)]]])
     return G
+
+
+def eps_chain_nfa(rng, n=None, eps=None):
+    """n numbered states q0..q<n-1>; an epsilon chain WITHOUT shortcuts visits all of them in a random order starting at the initial
+    state, and only its last state can reach acceptance (directly, or by reading one more symbol).  Closures need |Q|-1 steps; the
+    numbered names include q1 / q10, q9 / q10 (one a substring of the other, string order different from numeric order)."""
+    n = n or rng.choice([6, 7, 7, 10, 11, 12, 13])
+    eps = eps if eps is not None else rng.choice(['_', 'ε'])
+    Q = ['q%d' % i for i in range(n)]
+    order = Q[1:]
+    rng.shuffle(order)
+    order = [Q[0]] + order
+    rows = {}
+    for x, y in zip(order, order[1:]):
+        rows[(x, eps)] = [y]
+    Sig = rng.choice([['a'], ['a', 'b']])
+    last = order[-1]
+    if rng.random() < 0.5:
+        F = [last]
+    else:
+        F = [order[rng.randrange(n)]] if rng.random() < 0.3 else []
+        tgt = rng.choice(Q)
+        rows[(last, 'a')] = [tgt]
+        F = sorted(set(F) | {tgt}) if tgt != last else [last]
+    for _ in range(rng.randint(0, 3)):           # a few more labelled transitions (never epsilon: the chain stays shortcut-free)
+        rows.setdefault((rng.choice(Q), rng.choice(Sig)), [rng.choice(Q)])
+    delta = [[p, a, T] for (p, a), T in rows.items()]
+    rng.shuffle(delta)
+    return {'Q': Q, 'Sigma': Sig, 'delta': delta, 'q0': Q[0], 'F': F, 'eps': eps, 'dd': True}
+
+
+def long_eps_chain_nfa(n):
+    """q0 -eps-> q1 -eps-> ... -eps-> q<n-1> -a-> f (accepting): closures larger than any plausible fixed iteration cap"""
+    Q = ['c%d' % i for i in range(n)] + ['f']
+    delta = [['c%d' % i, '_', ['c%d' % (i + 1)]] for i in range(n - 1)] + [['c%d' % (n - 1), 'a', ['f']]]
+    return {'Q': Q, 'Sigma': ['a'], 'delta': delta, 'q0': 'c0', 'F': ['f'], 'eps': '_', 'dd': True}
+
+
+def signature_complete_dfa(rng, M=None):
+    """M accepting states s_i that become singleton classes early, and for EVERY ordered pair (i, j) a state t_i_j with a -> s_i, b -> s_j:
+    all pairs of class positions occur as successor signatures inside one block, so a refinement step that identifies two different
+    signatures (ambiguous keys, truncated keys, hashing) merges inequivalent states for good.  A spine makes every state reachable; all
+    states are pairwise distinguishable (the DFA is minimal).  About 2 M^2 states."""
+    M = M or rng.choice([11, 12])
+    s = ['s%d' % i for i in range(M)]
+    t = [(i, j, 't_%d_%d' % (i, j)) for i in range(M) for j in range(M)]
+    r = ['r%d' % k for k in range(len(t))]
+    delta = []
+    for x in 'abc':
+        delta.append(['d', x, 'd'])
+    delta += [['u', 'a', s[0]], ['u', 'b', 'd'], ['u', 'c', 'v'], ['v', 'a', 'd'], ['v', 'b', s[0]], ['v', 'c', 'd']]
+    markers = ['d', 'u', 'v']
+    for i in range(M):
+        n = i + 1
+        delta += [[s[i], 'a', markers[n % 3]], [s[i], 'b', markers[(n // 3) % 3]], [s[i], 'c', markers[(n // 9) % 3]]]
+    for i, j, x in t:
+        delta += [[x, 'a', s[i]], [x, 'b', s[j]], [x, 'c', 'd']]
+    for k in range(len(r)):
+        delta += [[r[k], 'a', t[k][2]], [r[k], 'b', 'd'], [r[k], 'c', r[k + 1] if k + 1 < len(r) else 'u']]
+    Q = s + [x for _, _, x in t] + r + ['d', 'u', 'v']
+    rng.shuffle(Q)
+    return {'Q': Q, 'Sigma': ['a', 'b', 'c'], 'delta': delta, 'q0': r[0], 'F': list(s)}
+
+
+def long_rhs_cfg(rng):
+    """one variable with several LONG right-hand sides (10-16 symbols each): the conversion to Chomsky normal form needs more helper
+    variables than there are unused capital letters, and splits several rules of the SAME left-hand side.  Returns (grammar, probe words):
+    the generated words and mixtures of two right-hand sides of the same total length."""
+    letters = rng.sample(['a', 'b', 'c', 'd'], rng.randint(2, 3))
+    lens = [rng.randint(13, 16) for _ in letters]
+    R = [['S', i, [['t', x]] * k] for i, (x, k) in enumerate(zip(letters, lens))]
+    V = ['S']
+    if rng.random() < 0.5:
+        V.append('T')
+        R.append(['S', len(R), [['v', 'T']]])
+        R.append(['T', len(R), [['t', letters[0]], ['t', letters[1]]]])
+        R.append(['T', len(R), [['t', letters[0]], ['v', 'T'], ['t', letters[1]]]])
+    words = [x * k for x, k in zip(letters, lens)]
+    probes = list(words)
+    for _ in range(12):
+        (x, k), (y, m) = rng.sample(list(zip(letters, lens)), 2)
+        i = rng.randint(1, k - 1)
+        probes.append(x * i + y * (k - i))
+        probes.append(y * rng.randint(1, 4) + x * rng.randint(1, 4))
+        probes.append(x * i + y * (m - i) if m > i else x * i)
+    probes += ['', letters[0], letters[0] + letters[1], letters[0] * 2 + letters[1] * 2]
+    import itertools
+    for x, y in itertools.permutations(letters, 2):       # x^i y^j: a prefix of one long rule glued to a suffix of another
+        for i in (1, 2, 3):
+            for j in range(1, max(lens) + 1):
+                probes.append(x * i + y * j)
+    return {'V': V, 'Sigma': sorted(letters), 'R': R, 'S': 'S'}, sorted(set(probes), key=lambda w: (len(w), w))
+
+
+def doubling_cfg(rng):
+    """a variable with a SHALLOW but long-yield alternative (A -> BB, B -> CC, C -> dd: height 4, 8 letters) next to a DEEP but
+    short-yield one (A -> ddddd: a chain of height 5 after the conversion): the shortest word of a variable does not come from its
+    lowest derivation tree.  Finite language; enumerate up to n = 6..9."""
+    d, c = rng.sample(['a', 'b', 'c', 'd'], 2)
+    k = rng.randint(4, 6)
+    V = ['S', 'A', 'B', 'C']
+    R = [['S', 0, [['t', c], ['v', 'A']]] if rng.random() < 0.6 else ['S', 0, [['v', 'A'], ['t', c]]],
+         ['A', 1, [['v', 'B'], ['v', 'B']]], ['A', 2, [['t', d]] * k],
+         ['B', 3, [['v', 'C'], ['v', 'C']]],
+         ['C', 4, [['t', d], ['t', d]]]]
+    if rng.random() < 0.4:
+        R.append(['C', 5, [['t', d]]])
+    if rng.random() < 0.3:
+        R.append(['B', len(R), [['t', c]]])
+    return {'V': V, 'Sigma': sorted([c, d]), 'R': R, 'S': 'S'}
+
+
+# ------------------------------------------------------------------ purposeful Turing machines (long runs on longer words)
+def tm_zoo(rng):
+    """A machine that does real work for many steps, with words that make it work: returns (spec, words).
+    Families: erase-and-walk-back (a^n b), cell counter (many consecutive bumps at the left end that rewrite cell 0), a^n b^n
+    (zig-zag marking), palindromes, binary increment, unary doubling sweep."""
+    k = rng.randrange(6)
+    B = rng.choice(['_', '□'])
+    if k == 0:
+        # a^n b: go right to the b, come back erasing the a's, bounce off the left end, walk right over the blanks to the b, accept
+        d = [['s', 'a', 's', 'a', 'R'], ['s', 'b', 'l', 'b', 'L'], ['l', 'a', 'l', B, 'L'], ['l', B, 'r', B, 'R'],
+             ['r', B, 'r', B, 'R'], ['r', 'b', 'e', 'b', 'R'], ['e', B, 'qA', B, 'R']]
+        T = {'Q': ['s', 'l', 'r', 'e', 'qA', 'qR'], 'Sigma': ['a', 'b'], 'Gamma': ['a', 'b', B], 'delta': d, 'q0': 's', 'qa': 'qA', 'qr': 'qR', 'blank': B}
+        ws = ['a' * n + 'b' for n in (0, 1, 2, 5, 6, 7, 9, 12)] + ['aab' + 'a', 'b' + 'b', 'aaaa', '']
+        return T, ws
+    if k == 1:
+        # counter in cell 0: 0 -> 1 -> ... -> m by left moves at the left end (the head stays put), then accept / reject
+        m = rng.randint(5, 9)
+        digs = [str(i) for i in range(m + 1)]
+        two = rng.random() < 0.5
+        d = []
+        for i in range(m):
+            p, q = ('c', 'c') if not two else (('c', 'e') if i % 2 == 0 else ('e', 'c'))
+            d.append([p, digs[i], q, digs[i + 1], 'L'])
+        last = 'c' if not two or m % 2 == 0 else 'e'
+        d.append([last, digs[m], rng.choice(['qA', 'qR']), digs[m], 'R'])
+        Q = ['c'] + (['e'] if two else []) + ['qA', 'qR']
+        T = {'Q': Q, 'Sigma': ['0'], 'Gamma': digs + [B], 'delta': d, 'q0': 'c', 'qa': 'qA', 'qr': 'qR', 'blank': B}
+        return T, ['0', '00', '', '000']
+    if k == 2:
+        # a^n b^n by zig-zag marking
+        d = [['0', 'a', '1', 'x', 'R'], ['0', 'y', '3', 'y', 'R'], ['0', B, 'qA', B, 'R'],
+             ['1', 'a', '1', 'a', 'R'], ['1', 'y', '1', 'y', 'R'], ['1', 'b', '2', 'y', 'L'],
+             ['2', 'a', '2', 'a', 'L'], ['2', 'y', '2', 'y', 'L'], ['2', 'x', '0', 'x', 'R'],
+             ['3', 'y', '3', 'y', 'R'], ['3', B, 'qA', B, 'R']]
+        T = {'Q': ['0', '1', '2', '3', 'qA', 'qR'], 'Sigma': ['a', 'b'], 'Gamma': ['a', 'b', 'x', 'y', B], 'delta': d, 'q0': '0', 'qa': 'qA', 'qr': 'qR', 'blank': B}
+        return T, ['', 'ab', 'aabb', 'aaabbb', 'aaaabbbb', 'aaaaabbbbb', 'aab', 'abb', 'aabbb', 'ba', 'aaaabbb']
+    if k == 3:
+        # palindromes over {a,b}
+        d = [['s', 'a', 'ra', B, 'R'], ['s', 'b', 'rb', B, 'R'], ['s', B, 'qA', B, 'R'],
+             ['ra', 'a', 'ra', 'a', 'R'], ['ra', 'b', 'ra', 'b', 'R'], ['ra', B, 'ca', B, 'L'],
+             ['rb', 'a', 'rb', 'a', 'R'], ['rb', 'b', 'rb', 'b', 'R'], ['rb', B, 'cb', B, 'L'],
+             ['ca', 'a', 'back', B, 'L'], ['ca', B, 'qA', B, 'R'], ['ca', 'b', 'qR', 'b', 'R'],
+             ['cb', 'b', 'back', B, 'L'], ['cb', B, 'qA', B, 'R'], ['cb', 'a', 'qR', 'a', 'R'],
+             ['back', 'a', 'back', 'a', 'L'], ['back', 'b', 'back', 'b', 'L'], ['back', B, 's', B, 'R']]
+        T = {'Q': ['s', 'ra', 'rb', 'ca', 'cb', 'back', 'qA', 'qR'], 'Sigma': ['a', 'b'], 'Gamma': ['a', 'b', B], 'delta': d, 'q0': 's', 'qa': 'qA', 'qr': 'qR', 'blank': B}
+        return T, ['', 'a', 'aba', 'abba', 'abab', 'aabaa', 'abaaba', 'abbabba', 'aabbaab', 'babbab', 'abbbbbba']
+    if k == 4:
+        # binary increment, most significant bit first: run to the right end, carry leftwards, accept
+        d = [['r', '0', 'r', '0', 'R'], ['r', '1', 'r', '1', 'R'], ['r', B, 'c', B, 'L'],
+             ['c', '1', 'c', '0', 'L'], ['c', '0', 'qA', '1', 'L'], ['c', B, 'qR', B, 'R']]
+        T = {'Q': ['r', 'c', 'qA', 'qR'], 'Sigma': ['0', '1'], 'Gamma': ['0', '1', B], 'delta': d, 'q0': 'r', 'qa': 'qA', 'qr': 'qR', 'blank': B}
+        return T, ['', '0', '1', '111', '1011', '1111111', '01111111', '10101010']
+    # sweeps: replace every a by x one per round trip (quadratic number of steps), accept at the end
+    d = [['f', 'x', 'f', 'x', 'R'], ['f', 'a', 'b', 'x', 'L'], ['f', B, 'qA', B, 'R'],
+         ['b', 'x', 'b', 'x', 'L'], ['b', B, 'f', B, 'R'], ['b', 'a', 'b', 'a', 'L']]
+    # cell 0 has no left neighbour: 'b' bumps at the left end reading x forever unless it sees a blank -- use a marker cell instead
+    d = [['i', 'a', 'f', '#', 'R'], ['i', B, 'qA', B, 'R'],
+         ['f', 'x', 'f', 'x', 'R'], ['f', 'a', 'b', 'x', 'L'], ['f', B, 'qA', B, 'R'],
+         ['b', 'x', 'b', 'x', 'L'], ['b', '#', 'f', '#', 'R']]
+    T = {'Q': ['i', 'f', 'b', 'qA', 'qR'], 'Sigma': ['a'], 'Gamma': ['a', 'x', '#', B], 'delta': d, 'q0': 'i', 'qa': 'qA', 'qr': 'qR', 'blank': B}
+    return T, ['', 'a', 'aa', 'aaaa', 'aaaaaaa', 'aaaaaaaaaa']
+
+
+def deep_drain_pda(rng):
+    """pushes one of two stack symbols per input letter above a bottom marker, then drains the whole stack by epsilon moves and accepts:
+    words of length 10-20 need epsilon paths much longer than |Q| * (|Gamma| + 1) although every closure is small (n + 3 configurations)"""
+    eps = rng.choice(['_', 'ε'])
+    a = 'a'
+    two = rng.random() < 0.6          # 'a' pushes x, 'b' pushes y (deterministic pushes: the number of configurations stays linear)
+    delta = [['i', eps, eps, [['p', '$']]],
+             ['p', a, eps, [['p', 'x']]],
+             ['p', eps, eps, [['d', eps]]],
+             ['d', eps, 'x', [['d', eps]]]]
+    Sig = [a]
+    if two:
+        Sig = ['a', 'b']
+        delta.append(['p', 'b', eps, [['p', 'y']]])
+        delta.append(['d', eps, 'y', [['d', eps]]])
+    delta.append(['d', eps, '$', [['f', eps]]])
+    rng.shuffle(delta)
+    P = {'Q': ['i', 'p', 'd', 'f', 'g'], 'Sigma': Sig, 'Gamma': ['x', 'y', '$'], 'delta': delta, 'q0': 'i', 'F': ['f'], 'eps': eps, 'dd': True}
+    ns = rng.sample([10, 12, 14, 15, 17, 20], 3)
+    words = ['a' * n for n in ns] + ([('ab' * 10)[:n] for n in ns[:1]] if len(Sig) == 2 else [])
+    return P, words
+
+
+def noop_heavy_pda(rng):
+    """a finite-state recogniser (value of the binary / unary input modulo k, k = 6..9) written as a PDA: 12-18 moves that neither push
+    nor pop, with different targets, plus a pair of push / pop moves.  Returns (spec, probe words of length 4-7)."""
+    k = rng.randint(6, 9)
+    eps = rng.choice(['_', 'ε'])
+    Q = ['m%d' % i for i in range(k)]
+    Sig = ['0', '1']
+    delta = []
+    for i in range(k):
+        delta.append([Q[i], '0', eps, [[Q[(2 * i) % k], eps]]])
+        delta.append([Q[i], '1', eps, [[Q[(2 * i + 1) % k], eps]]])
+    rng.shuffle(delta)
+    F = [Q[0]] + ([Q[rng.randrange(1, k)]] if rng.random() < 0.4 else [])
+    import itertools
+    probes = [''.join(w) for n in (4, 5, 6) for w in itertools.product('01', repeat=n)]
+    probes = rng.sample(probes, 40) + ['10011', '1110', '111', '0000', '10101', '110001']
+    return {'Q': Q, 'Sigma': Sig, 'Gamma': ['x'], 'delta': delta, 'q0': Q[0], 'F': sorted(set(F)), 'eps': eps, 'dd': True}, sorted(set(probes))
+
+
+def numbered_dfa(rng, n=None, Sigma=None):
+    """a total DFA with exactly n = 11..13 states called q0 .. q<n-1> (q1 / q10 and q9 / q10: substring and string-order traps), every
+    state reachable through a spine"""
+    n = n or rng.randint(11, 13)
+    Sigma = Sigma or rng.choice([['a', 'b'], ['a']])
+    Q = ['q%d' % i for i in range(n)]
+    delta = []
+    for i, q in enumerate(Q):
+        for j, a in enumerate(Sigma):
+            delta.append([q, a, Q[(i + 1) % n] if j == 0 else rng.choice(Q)])
+    F = [q for q in Q if rng.random() < 0.3] or [Q[1]]
+    return {'Q': Q, 'Sigma': Sigma, 'delta': delta, 'q0': Q[0], 'F': F}
+
+
+def numbered_nfa(rng, n=None):
+    """an NFA with n = 11..12 states q0 .. q<n-1>, few transitions per state (small subset automaton), q1 accepting and q10 not"""
+    n = n or rng.randint(11, 12)
+    eps = rng.choice(['_', 'ε'])
+    Sig = ['a', 'b']
+    Q = ['q%d' % i for i in range(n)]
+    rows = {}
+    for i, q in enumerate(Q):
+        rows[(q, 'a')] = [Q[(i + 1) % n]]
+        if rng.random() < 0.5:
+            rows[(q, 'b')] = sorted({rng.choice(Q), rng.choice(Q)})
+        if rng.random() < 0.15:
+            rows[(q, eps)] = [rng.choice(Q)]
+    rows[(Q[0], 'b')] = sorted(set(rows.get((Q[0], 'b'), [])) | {Q[10]})
+    delta = [[p, a, T] for (p, a), T in rows.items()]
+    F = sorted({Q[1]} | {q for q in Q[2:10] if rng.random() < 0.15})
+    return {'Q': Q, 'Sigma': Sig, 'delta': delta, 'q0': Q[0], 'F': F, 'eps': eps, 'dd': True}
+
+
+def ring_dfa(rng, n=None):
+    """5-8 states on one big cycle (first symbol = next state on the ring), the other symbols mostly lead to one or two hub states, few
+    accepting states: whether an accepting state is reachable from a state is decided through back edges of any depth-first search"""
+    n = n or rng.randint(5, 8)
+    Sig = rng.choice([['a', 'b'], ['a', 'b'], ['a', 'b', 'c']])
+    Q = ['r%d' % i for i in range(n)]
+    rng.shuffle(Q)
+    hubs = rng.sample(Q, 2)
+    delta = []
+    for i, q in enumerate(Q):
+        delta.append([q, Sig[0], Q[(i + 1) % n] if rng.random() < 0.85 else rng.choice(Q)])
+        for a in Sig[1:]:
+            delta.append([q, a, rng.choice(hubs) if rng.random() < 0.7 else rng.choice(Q)])
+    F = rng.sample(Q, rng.choice([1, 2, 2, 3]))
+    if rng.random() < 0.5:       # an accepting state all of whose transitions lead to one non-accepting state
+        f2 = rng.choice(F)
+        v = rng.choice([q for q in Q if q not in F] or Q)
+        for e in delta:
+            if e[0] == f2:
+                e[2] = v
+    return {'Q': sorted(Q), 'Sigma': Sig, 'delta': delta, 'q0': Q[0], 'F': F}
